@@ -19,6 +19,12 @@ def main():
     if bad:
         print("SELFTEST FAILED: lemma library")
         return 3
+    from . import metalemmas
+    for name, status, dt in metalemmas.prove_all():
+        print("meta-lemma", name, status, f"{dt:.2f}s")
+        if status != "proved":
+            print("SELFTEST FAILED: meta-lemma", name)
+            return 3
     # canaries: deliberately false clauses must be refuted with a model that replays on the real function
     import copy
     from .contracts import Registry
